@@ -30,6 +30,7 @@ def startTop (s : St) (t : Nat) (op : TopOp) : St :=
     { s with sigs := s.sigs ++ [a] }
   | .sigClone a => if s.arcRc a > 0 then cloneHandle s ⟨0, some a⟩ else s
   | .sigDrop a => if s.arcRc a > 0 then dropHandle s ⟨0, some a⟩ else s
+  | .sigThreads _ _ => s.push [.gc]
 
 /-- One tick: a machine step, or — at quiescence — the start of the next top-level operation. -/
 def tick (p : Prog) (h : Hist) (s : St) : Option St :=
